@@ -36,9 +36,11 @@ Proof.
   intros H.
   pose proof (w_xpc_le (xpc s)). pose proof (w_rpc_le (rpc s)). pose proof (w_spc_le (spc s)).
   pose proof (w_ppc_le (ppc s)). pose proof (w_bool_le (linger s)). pose proof (w_bool_le (negb (peer_eof s))).
-  destruct H; unfold measure, group_err, spent, fresh_conn, enq, cap in *; split_ifs; norm_step;
+  destruct H; try (pose proof (removelast_shorter (inbuf s) ltac:(assumption)));
+    unfold measure, group_err, spent, fresh_conn, enq, cap in *; split_ifs; norm_step;
     repeat match goal with E : ?x = _ |- context [?x] => rewrite E end;
     repeat match goal with E : ?x = _, H : context [?x] |- _ => rewrite E in H end;
+    try (lia);
     try (destruct (inbuf s); cbn [tl length] in * );
     rewrite ?app_length; cbn [length w_cpc w_xpc w_rpc w_spc w_ppc w_close w_bool negb] in *;
     try lia.
